@@ -14,6 +14,8 @@
 package main
 
 import (
+	"encoding/json"
+	"flag"
 	"fmt"
 	"os"
 	"path/filepath"
@@ -168,6 +170,8 @@ type chaosStats struct {
 	keys map[string]int
 }
 
+var minimizeFlag = flag.Bool("minimize", false, "with --replay: shrink the chaos program while the violation key stays the same and print it")
+
 func main() {
 	run := vc.New("C12")
 	run.Rule("chaos: programs are trees (dsl function, arguments, func() bodies) over every exported function of package dsl " +
@@ -205,17 +209,22 @@ func main() {
 	}
 
 	if run.Replay != "" {
-		replay(run, h, repo, dir)
+		replay(run, h, g, repo, dir)
 		run.Finish()
 	}
 
+	only := os.Getenv("VERIF_C12_ONLY") // calibration aid: chaos | dangling
 	var wg sync.WaitGroup
-	wg.Add(1)
-	go func() {
-		defer wg.Done()
-		runDangling(run, filepath.Join(dir, "dangling"), run.N(300, 5000))
-	}()
-	runChaos(run, h, g, repo, run.N(4000, 150000))
+	if only != "chaos" {
+		wg.Add(1)
+		go func() {
+			defer wg.Done()
+			runDangling(run, filepath.Join(dir, "dangling"), run.N(300, 5000))
+		}()
+	}
+	if only != "dangling" {
+		runChaos(run, h, g, repo, run.N(4000, 150000))
+	}
 	wg.Wait()
 	run.Floor(run.N(300, 3000))
 	run.Finish()
@@ -286,6 +295,15 @@ func runChaos(run *vc.Run, h *chaos.Harness, g *chaos.Gen, repo string, n int) {
 				sig := strings.Join(p.Funcs(), ",") + "|" + res.Outcome
 				run.Distinct(sig)
 				run.Count("programs_"+res.Outcome, 1)
+				if res.Outcome == "rejected" {
+					phase := "execution"
+					for _, e := range res.Errors {
+						if e.Kind == "validation" {
+							phase = "validation"
+						}
+					}
+					run.Count("programs_rejected_during_"+phase, 1)
+				}
 				run.Count("dsl_calls_executed", res.NCalls)
 				run.Max("max_calls_in_a_program", p.NumCalls())
 				for _, f := range res.Called {
@@ -314,6 +332,7 @@ func runChaos(run *vc.Run, h *chaos.Harness, g *chaos.Gen, repo string, n int) {
 				mu.Lock()
 				skip := true
 				for _, f := range fs {
+					run.Count("alarms "+f.Key, 1)
 					perKey[f.Key]++
 					if perKey[f.Key] <= confirmCap {
 						skip = false
@@ -330,6 +349,7 @@ func runChaos(run *vc.Run, h *chaos.Harness, g *chaos.Gen, repo string, n int) {
 					continue
 				}
 				for _, f := range afs {
+					noteFirst(f.Key, p)
 					if strings.HasPrefix(f.Key, "panic:") {
 						run.Seen("panic_sites", strings.TrimPrefix(f.Key[:strings.LastIndex(f.Key, ":")], "panic:"))
 					}
@@ -361,6 +381,7 @@ func runChaos(run *vc.Run, h *chaos.Harness, g *chaos.Gen, repo string, n int) {
 				}
 				run.Count("programs_died_or_hung", 1)
 				for _, f := range afs {
+					noteFirst(f.Key, d.Prog)
 					run.Violation(f.Key, f.What, w)
 				}
 			}
@@ -379,9 +400,47 @@ func runChaos(run *vc.Run, h *chaos.Harness, g *chaos.Gen, repo string, n int) {
 	}
 	close(jobs)
 	wg.Wait()
+	if os.Getenv("VERIF_C12_CATALOGUE") != "" {
+		// calibration aid: a minimal program per violation key
+		for _, key := range sortedProgKeys(firstProg) {
+			key := key
+			min := g.Minimize(firstProg[key], func(c *prog.Program) bool {
+				cfs, _, _ := confirmAlone(run, h, repo, c, 60*time.Second)
+				for _, f := range cfs {
+					if f.Key == key {
+						return true
+					}
+				}
+				return false
+			})
+			fmt.Printf("CATALOGUE key=%s known=%v\n%s\n", key, run.IsKnown(key), min.GoSource())
+		}
+	}
 }
 
-func replay(run *vc.Run, h *chaos.Harness, repo, dir string) {
+var (
+	firstMu   sync.Mutex
+	firstProg = map[string]*prog.Program{}
+)
+
+func noteFirst(key string, p *prog.Program) {
+	firstMu.Lock()
+	if q, ok := firstProg[key]; !ok || p.NumCalls() < q.NumCalls() {
+		firstProg[key] = p
+	}
+	firstMu.Unlock()
+}
+
+func sortedProgKeys(m map[string]*prog.Program) []string {
+	ks := make([]string, 0, len(m))
+	for k := range m {
+		ks = append(ks, k)
+	}
+	sort.Strings(ks)
+	return ks
+}
+
+func replay(run *vc.Run, h *chaos.Harness, g *chaos.Gen, repo, dir string) {
 	var w chaosWitness
 	if err := run.LoadReplay(&w); err != nil {
 		fmt.Println("replay:", err)
@@ -420,6 +479,23 @@ func replay(run *vc.Run, h *chaos.Harness, repo, dir string) {
 	for _, f := range fs {
 		fmt.Printf("oracle: %s: %s\n", f.Key, f.What)
 		run.Violation(f.Key, f.What, w2)
+	}
+	if *minimizeFlag && len(fs) > 0 {
+		key := fs[0].Key
+		trials := 0
+		min := g.Minimize(w.Program, func(c *prog.Program) bool {
+			trials++
+			cfs, _, _ := confirmAlone(run, h, repo, c, bound)
+			for _, f := range cfs {
+				if f.Key == key {
+					return true
+				}
+			}
+			return false
+		})
+		fmt.Printf("MINIMAL key=%s calls=%d trials=%d\n%s", key, min.NumCalls(), trials, min.GoSource())
+		b, _ := json.Marshal(min)
+		fmt.Printf("MINIMAL-JSON %s\n", b)
 	}
 }
 
